@@ -312,7 +312,8 @@ def main(argv):
             rc = selftest(pid, mod, a.tier, seed)
         else:
             mod.run(ctx)
-            rc = ctx.finish()
+            from . import manifest
+            rc = ctx.finish(level=manifest.CLAIMED.get(pid, {}).get("level", "model_checking"))
     except tlc.MachineryError as e:
         print("MACHINERY-FAILURE property=%s: %s" % (pid, e))
         shutil.rmtree(ctx.work, ignore_errors=True)
